@@ -15,7 +15,7 @@ static ONE_AT_A_TIME: std::sync::Mutex<()> = std::sync::Mutex::new(());
 
 pub fn run_jumbo(ch: &mut Chooser, ctx: &mut Ctx) {
     let _turn = ONE_AT_A_TIME.lock().unwrap_or_else(std::sync::PoisonError::into_inner);
-    let tail = [2usize, 34, 64, 66][ch.pick_usize("jumbo.tail", 4)];
+    let tail = [34usize, 2, 66, 34, 2, 66, 64][ch.pick_usize("jumbo.tail", 7)]; // mostly with a partial last block
     let b = (1usize << 32) + tail;
     let layer = [Layer::Default, Layer::High, Layer::Low][ch.pick_usize("jumbo.layer", 3)]; // (not the wrapper: its API-layer twin would double the memory)
     let engine = if ch.chance("jumbo.nosimd", 1, 3) && layer != Layer::Rs { EngineKind::NoSimd } else { EngineKind::Default };
